@@ -7,6 +7,8 @@ import Varlink.Client
 import Varlink.Extracted.Wire
 import VarlinkProofs.Lemmas.Frame
 import VarlinkProofs.Lemmas.Wire
+import Varlink.Extracted.Code
+import Varlink.ExpectedCode
 namespace Varlink.C11
 open Varlink
 
@@ -143,5 +145,11 @@ example : (0 : UInt8) ∉ pending { buf := str "{\"par" } [str "ameters\":{}"] :
 example : isDecodeError (receiveFrame (str "[1]")) = true := by decide
 example : (decodeReply (str "null")).isSome = true := by decide
 example : (applyReplyMembers {} (.cons (str "continues") (.bool true) .nil)).map (·.continues) = some true := by decide
+
+/-- **Tie to the source**: the declarations of /repo that this property's model transliterates
+    (`Extracted.codeNames_C11`) have, in the current working tree, exactly the fingerprints of the code the
+    model was validated against. Any change to them breaks this obligation; the check then searches the
+    correspondence streams for an input on which the changed code violates the property. -/
+theorem modelled_code_unchanged : Varlink.Extracted.code_C11 = Varlink.ExpectedCode.code_C11 := by decide
 
 end Varlink.C11
